@@ -341,7 +341,8 @@ def rand_opts(rng, allow_bad=True):
             if allow_bad and rng.random() < 0.04:
                 v = rng.choice(["1e5", "x", None])
         elif base == "expression":
-            v = rng.choice(["2", "1 + 1.5", "0.5", None, "3 * 2"])
+            # constants written in scientific notation: an expression is a text, never converted to a number
+            v = rng.choice(["2", "1 + 1.5", "0.5", None, "3 * 2", "1e3", "2.5E-1", "5e-1", "1.5e+2"])
         else:
             v = rng.choice([0.1, 1e-3, 2, 0.0])
         pairs.append((name, v))
@@ -503,7 +504,38 @@ def make_intent(rng, flat=None, reserved_ok=False):
     intent = {"flat": flat, "groups": groups}
     if rng.random() < 0.5:
         add_intent_expressions(rng, intent)
+    if rng.random() < 0.15:
+        add_sci_constant_expressions(rng, intent)
     return intent
+
+
+# expressions whose whole text is a number in scientific notation (dyadic values: exact regime)
+SCI_CONSTANT_EXPRESSIONS = ["1e3", "2.5E-1", "5e-1", "1.5e+2", "2E0", "1.25e-1", "5E2", "1e0", "+1e2", ".5e1", "7.5e-01"]
+
+
+def add_sci_constant_expressions(rng, intent):
+    """the corner "scientific-notation strings" x "expressions": a constant expression written like 1e3, in the own
+    options of a parameter or in the default block of a group (then it holds for every parameter without an own one)"""
+    labels = [full for _, _, full in intent_labels(intent)]
+    if not labels or len(set(labels)) != len(labels):
+        return
+    g = rng.choice(intent["groups"])
+    text = rng.choice(SCI_CONSTANT_EXPRESSIONS)
+    if rng.random() < 0.4:
+        if g["defaults"] is None:
+            g["defaults"] = {}
+            g["defaults_serialized"] = {}
+        g["defaults"]["expression"] = text
+        g["defaults_serialized"]["expression"] = rng.random() < 0.6
+        return
+    p = rng.choice(g["params"])
+    if "expression" in p["opts"]:
+        return
+    p["opts"]["expression"] = text
+    p["serialized"]["expression"] = rng.random() < 0.6
+    p["style"] = "list"
+    p["sci"] = p.get("sci", False) and math.isfinite(p["value"])
+    p["ast"] = x12.parse_expr(text)
 
 
 def sci_text(rng, v: float) -> str:
